@@ -321,8 +321,12 @@ func checkInvariants(re *coregex.Regex) []string {
 		info := st.VerifInfo()
 		for role, c := range info.Caches {
 			oneState := 4*c.Stride + 4*maxNFA + 128
-			if c.MemoryUsage > c.Capacity+oneState {
-				bad = append(bad, fmt.Sprintf("%s: %s cache uses %d bytes, capacity %d (+ one state %d)", where, role, c.MemoryUsage, c.Capacity, oneState))
+			used := c.MemoryUsage
+			if c.Recounted > used {
+				used = c.Recounted // footprint recounted from the cache's content, independent of the library's own bookkeeping
+			}
+			if used > c.Capacity+oneState {
+				bad = append(bad, fmt.Sprintf("%s: %s cache uses %d bytes (library reports %d), capacity %d (+ one state %d)", where, role, used, c.MemoryUsage, c.Capacity, oneState))
 			}
 		}
 		if info.HasBT && maxVisited > 0 && info.VisitedCap > maxVisited {
@@ -345,8 +349,12 @@ func checkInvariants(re *coregex.Regex) []string {
 				if c, ok := it.(interface{ VerifInfo() lazyInfo }); ok {
 					ci := c.VerifInfo()
 					oneState := 4*ci.Stride + 4*maxNFA + 128
-					if ci.MemoryUsage > ci.Capacity+oneState {
-						bad = append(bad, fmt.Sprintf("pool %s: cache uses %d bytes, capacity %d (+ one state %d)", role, ci.MemoryUsage, ci.Capacity, oneState))
+					used := ci.MemoryUsage
+					if ci.Recounted > used {
+						used = ci.Recounted
+					}
+					if used > ci.Capacity+oneState {
+						bad = append(bad, fmt.Sprintf("pool %s: cache uses %d bytes (library reports %d), capacity %d (+ one state %d)", role, used, ci.MemoryUsage, ci.Capacity, oneState))
 					}
 				}
 			}
